@@ -41,7 +41,7 @@ Definition grow_target (v : vec) (n : N) : N :=
     within what the allocator accepts. *)
 Definition grow_ok (c : cfg) (v : vec) (n : N) : Prop :=
   match vbk v with
-  | BHeap | BReloc => n <= usize_max /\ c_sz c * grow_target v n <= alloc_limit
+  | BHeap | BReloc _ => n <= usize_max /\ c_sz c * grow_target v n <= alloc_limit
   | _ => False
   end.
 
@@ -50,6 +50,7 @@ Definition bk_wf (b : bkind) : Prop :=
   match b with
   | BStack s => s <= usize_max
   | BStackN n s => n <= usize_max /\ s <= usize_max
+  | BReloc c0 => c0 <= usize_max
   | _ => True
   end.
 
